@@ -244,6 +244,11 @@ func read[EntityT entity.Interface](def Definition, wrapper func(e *Entity) Enti
 		}
 	}
 
+	// An entity without any operation has no id and can't be used
+	if len(ops) == 0 {
+		return *new(EntityT), fmt.Errorf("entity has no operations")
+	}
+
 	return wrapper(&Entity{
 		Definition: def,
 		ops:        ops,
